@@ -488,11 +488,12 @@ Fixpoint handle_timeout_loop (fuel : nat) (reverse : bool) (h : handler) : M (tr
             | Some version, true =>
                 let plen := length path in
                 let is_project := N.odd meta in
-                let pre_off := shift_right2 meta in
-                if negb (prefixb [ch_slash] path) || Nat.ltb plen pre_off
+                (* the stored offset is compared as a number: it can be huge in a hand-made entry *)
+                if negb (prefixb [ch_slash] path) || is_slash (last path ch_dot) || (N.of_nat plen <? N.shiftr meta 2)%N
                    || (Nat.ltb plen (h_cpl h1) && negb is_project) then
                   throw_context path;; throw_static M_invalid_entry;; ret_ (TError, h1)
                 else
+                  let pre_off := shift_right2 meta in
                   let rel := skipn (Nat.min plen (h_cpl h1)) path in
                   if is_project then
                     let pname := basename path in
